@@ -100,6 +100,9 @@ func runC02(c *Ctx, r *Report, tier string) {
 				// the two sources already merged (the cell is the by-value parameter of a helper)
 			case t == "phi{call:unquoteIfPossible(cell:string)#0 | cell:string}":
 				// a helper that returns the argument either unquoted or unchanged (unquote:"false")
+			case argSourcesOnly(t):
+				// the two sources merged by a helper; a helper returning ("", err) on its failure exits contributes
+				// an empty member that never reaches Set
 			case t == `phi{"" | call:(*parseState).pop(P1)}`, t == `phi{call:(*parseState).pop(P1) | ""}`:
 				// a helper returning ("", err) on its failure exits: the empty member never reaches Set
 			default:
@@ -147,7 +150,23 @@ func runC02(c *Ctx, r *Report, tier string) {
 			}
 		}
 		r.Check(len(extra) == 0, "UNQUOTE", pon, "unquoting does not depend on the spelling", c.ipos(in), "beyond reaching the merge of both argument sources, guarded only by the unquote tag", "additional guard: "+strings.Join(extra, "; "))
-		r.Check(len(merge.Preds) >= 2, "UNQUOTE", pon, "unquoting sits after the merge of inline and separate arguments", c.ipos(in), fmt.Sprintf("merge block has %d predecessors", len(merge.Preds)), "the unquote test is not at a merge of the argument sources")
+		merged := len(merge.Preds) >= 2
+		if !merged {
+			// the two sources may have been merged earlier (by a helper): the value being unquoted then carries both
+			if call, ok := in.(ssa.CallInstruction); ok && len(call.Common().Args) > 0 {
+				ts := c.term(call.Common().Args[0])
+				if u, ok := call.Common().Args[0].(*ssa.UnOp); ok {
+					if al, ok := u.X.(*ssa.Alloc); ok {
+						stores, _ := c.cellStores(al)
+						for _, st := range stores {
+							ts += " " + c.term(st.Val)
+						}
+					}
+				}
+				merged = strings.Contains(ts, "*(P5)") && strings.Contains(ts, "call:(*parseState).pop(P1)")
+			}
+		}
+		r.Check(merged, "UNQUOTE", pon, "unquoting sits after the merge of inline and separate arguments", c.ipos(in), fmt.Sprintf("merge block has %d predecessors", len(merge.Preds)), "the unquote test is not at a merge of the argument sources")
 	}
 	if argSet != nil {
 		path, ok := c.MustPass(po, isInstr(argSet), c.isCallTo("unquoteIfPossible"), litHas(true, `eq("false", call:(*multiTag).Get(&Option.tag(P3), "unquote"))`), nil)
@@ -397,4 +416,23 @@ func (c *Ctx) edgeLitTo(pred, succ *ssa.BasicBlock) (Lit, bool) {
 		}
 	}
 	return Lit{}, false
+}
+
+// argSourcesOnly: t is a flat phi whose members are all among the two argument sources and the empty string,
+// with at least one real source.
+func argSourcesOnly(t string) bool {
+	if !strings.HasPrefix(t, "phi{") || !strings.HasSuffix(t, "}") {
+		return false
+	}
+	real := false
+	for _, m := range strings.Split(t[4:len(t)-1], " | ") {
+		switch m {
+		case `""`:
+		case "*(P5)", "call:(*parseState).pop(P1)":
+			real = true
+		default:
+			return false
+		}
+	}
+	return real
 }
